@@ -365,7 +365,8 @@ def legal_scenarios(rng, thorough, prefix="L"):
                             kind=kind, csd=csd, memseed=9, tseed=rng.below(1 << 20), tmax=tm, tag="budget")); n += 1
     # capacity on real-world and assorted registers
     for kind in KINDS:
-        for csd in ([REAL_V1, REAL_V1B, csd_v1(4095, 7, 9), csd_v1(4095, 7, 11), csd_v1(0, 0, 9), csd_v1(1000, 3, 10)] if kind != "V2HC"
-                    else [REAL_V2, REAL_V2B, csd_v2(0), csd_v2(0x3FFFFE), csd_v2(65535), csd_v2(0x1FFFFF)]):
+        # both register versions on every kind, including the maximum field values of each version
+        for csd in [REAL_V1, REAL_V1B, csd_v1(4095, 7, 9), csd_v1(4095, 7, 11), csd_v1(4095, 7, 15), csd_v1(0, 0, 9), csd_v1(1000, 3, 10),
+                    REAL_V2, REAL_V2B, csd_v2(0), csd_v2(0x3FFFFE), csd_v2(0x3FFFFF), csd_v2(65535), csd_v2(0x1FFFFF)]:
             scns.append(Scn("%s%d" % (prefix, n), 1, 50, ["gt", "nb", "ny", "es"], kind=kind, csd=csd, memseed=1, tseed=n, tag="capacity")); n += 1
     return scns
